@@ -123,7 +123,7 @@ def main(argv=None):
         w = f.get("witness")
         still = True
         if w is not None:
-            r = native(dict(w, mode="replay", repo=repo))
+            r = native(dict(w, mode=w.get("mode", "replay"), repo=repo))
             still = r.get("replay", {}).get("status") == "failed"
             f["_witness_result"] = r
         if still:
